@@ -283,7 +283,7 @@ def expr_key(fn, o, depth=0, copyprop=False):
         return ("load", expr_key(fn, i["ptr"], depth + 1, copyprop))
     if i.op == "getelementptr":
         return ("gep", expr_key(fn, i["base"], depth + 1, copyprop), i["off"], tuple((x["scale"], expr_key(fn, x["v"], depth + 1, copyprop)) for x in i["idx"]))
-    if i.op in ("add", "sub", "mul", "and", "or", "xor", "shl", "lshr"):
+    if i.op in ("add", "sub", "mul", "and", "or", "xor", "shl", "lshr", "ashr", "sdiv", "udiv", "srem", "urem"):
         return (i.op, expr_key(fn, i["a"], depth + 1, copyprop), expr_key(fn, i["b"], depth + 1, copyprop))
     if i.op == "call":
         return ("call", i.id)
